@@ -211,7 +211,7 @@ def parse_group(ctx):
     return _emit(d)
 
 
-@rule("PARSE-EOI", ["C07"], floor=3)
+@rule("PARSE-EOI", ["C07", "C14", "C13", "C15", "C03", "C19"], floor=3)
 def parse_eoi(ctx):
     """compile(): a program is returned on the non-literal path only when the parser consumed the whole pattern
     (idx == len); otherwise Error::Syntax."""
@@ -227,6 +227,8 @@ def parse_eoi(ctx):
         if r.startswith("Result::Ok"):
             _rec(d, "ok-only-at-end", any(re.match(r"^eq\((a1\.len|len\(.*\)), a1\.idx\)$|^eq\(a1\.idx, (a1\.len|len\(.*\))\)$", g) for g in gs0), "compile() returns a program although input remains (idx == len not established)", loc)
             _rec(d, "optimize-applied", "optimize(try(parse_expr(a1, vec![2])) as Continue.0, a1.re_flags)" in strip_ver(r), "the parsed operation must be optimised with the regex flags and handed to ReProgram::new", loc)
+            pn = [e for e in p.effects if e[0] == "call" and e[1].endswith("ReProgram::new")]
+            _rec(d, "group-count-is-parser-counter", len(pn) == 1 and strip_ver(render(pn[0][2][2])) == "Option::Some{0: a1.capturing_open_paren_count}", "the program's group count (max_parens) must be the parser's counter of opening parentheses - $N, the back-reference arrays and analyze number groups by it; found %s" % [strip_ver(render(e[2][2]))[:80] for e in pn], loc)
         elif any(re.match(r"^!eq\((a1\.len|len\(.*\)), a1\.idx\)$|^!eq\(a1\.idx, (a1\.len|len\(.*\))\)$", g) for g in gs0):
             _rec(d, "leftover-rejected", r.startswith(SYN), "left-over input must be Error::Syntax; found %s" % r[:60], loc)
     hb = [1 for p, gs, r in paths if "a1.has_back_references" in [strip_ver(g) for g in gs]]
@@ -479,7 +481,7 @@ def seq_flatten(ctx):
     return _emit(d)
 
 
-@rule("REPEAT-OPTIMIZE", ["C20", "C08"], floor=8)
+@rule("REPEAT-OPTIMIZE", ["C20", "C08", "C01", "C02"], floor=8)
 def repeat_optimize(ctx):
     """optimize() preserves bounds: Repeat raises min 0->1 only when the (optimised) child matches the empty string
     anywhere; GreedyFixed becomes Nothing only for max=0 and the bare child only for a zero-length child; every other
@@ -540,5 +542,5 @@ def repeat_optimize(ctx):
     if b is not None:
         cl = ctx.body(b.path + "::{closure#0}")
         rs = {_sh(strip_ver(render(p.ret))) for p in ctx.walk(b).paths}
-        _rec(d, "Choice|maps-branches", cl is not None and {_sh(strip_ver(render(p.ret))) for p in ctx.walk(cl).paths} == {"optimize(a2, a1.0)"} and any("Iterator::map(a1.branches" in r for r in rs), "Choice::optimize must optimise every branch in order; found %s" % sorted(rs)[0][:140], b.loc())
+        _rec(d, "Choice|maps-branches", cl is not None and {_sh(strip_ver(render(p.ret))) for p in ctx.walk(cl).paths} == {"optimize(a2, a1.0)"} and len(rs) == 1 and re.match(r"^(conv<.*>|op)\(Choice::Choice\{branches: Iterator::collect\(Iterator::map\(a1\.branches, closure [^\[]*\[a2\]\)\)\}\)$", next(iter(rs))) is not None, "Choice::optimize must be exactly Choice{branches: branches.map(optimize)} - the same branches in the same order (ordered choice prefers the earlier branch); found %s" % sorted(rs)[0][:160], b.loc())
     return _emit(d)
